@@ -1073,6 +1073,41 @@ Proof.
     exists q. cbn [it_req mkiter] in A3, A4. repeat split; auto; try (apply A3; assumption); try (apply A4; assumption).
 Qed.
 
+(* ---- the gate instantiated with the schema's own limits on input items ---- *)
+Lemma sent_items_ok g valid tool prompt init script i q :
+  nth_error (sent (run g (fun k r => items_ok r && valid k r) tool prompt init script)) i = Some q ->
+  items_ok q = true.
+Proof.
+  intros H. destruct (invalid_never_sent g (fun k r => items_ok r && valid k r) tool prompt init script) as [H1 _].
+  specialize (H1 i q H). cbn beta in H1. apply andb_true_iff in H1. tauto.
+Qed.
+
+Lemma call_id_ok_spec s : call_id_ok s = true <-> CALL_ID_MIN <= nlen s <= CALL_ID_MAX.
+Proof. unfold call_id_ok. rewrite andb_true_iff, !N.leb_le. tauto. Qed.
+
+Lemma name_ok_spec s :
+  name_ok s = true <-> NAME_MIN <= nlen s <= NAME_MAX /\ (forall c, In c s -> name_char_ok c = true).
+Proof. unfold name_ok. rewrite !andb_true_iff, !N.leb_le, forallb_forall. tauto. Qed.
+
+Lemma sent_within_schema_limits g valid tool prompt init script i q :
+  nth_error (sent (run g (fun k r => items_ok r && valid k r) tool prompt init script)) i = Some q ->
+  (forall id cid n a, In (ICall id cid n a) (items_of q) ->
+     CALL_ID_MIN <= nlen cid <= CALL_ID_MAX /\ NAME_MIN <= nlen n <= NAME_MAX /\
+     (forall c, In c n -> name_char_ok c = true)) /\
+  (forall id cid o, In (IOut id cid o) (items_of q) ->
+     CALL_ID_MIN <= nlen cid <= CALL_ID_MAX /\ nlen o <= TEXT_MAX) /\
+  (forall r t, In (IMsg r t) (items_of q) -> role_ok r = true /\ nlen t <= TEXT_MAX).
+Proof.
+  intros H. apply sent_items_ok in H. unfold items_ok in H. rewrite forallb_forall in H.
+  split; [|split].
+  - intros id cid n a Hin. specialize (H _ Hin). cbn [item_ok] in H. apply andb_true_iff in H.
+    destruct H as [H1 H2]. apply call_id_ok_spec in H1. apply name_ok_spec in H2. tauto.
+  - intros id cid o Hin. specialize (H _ Hin). cbn [item_ok] in H. apply andb_true_iff in H.
+    destruct H as [H1 H2]. apply call_id_ok_spec in H1. apply N.leb_le in H2. tauto.
+  - intros r t Hin. specialize (H _ Hin). cbn [item_ok] in H. apply andb_true_iff in H.
+    destruct H as [H1 H2]. apply N.leb_le in H2. tauto.
+Qed.
+
 (* ---- across responses: what a request answers in all ---- *)
 Definition init_items (init : option (list item)) : list item := match init with Some l => l | None => [] end.
 
@@ -1234,4 +1269,16 @@ Definition ex_same_id_run : result :=
 Lemma ex_same_id_shape :
   res_reason ex_same_id_run = Completed /\
   map (fun it => out_ids (items_of (it_req it))) (res_iters ex_same_id_run) = [[]; [lit "c1"]; [lit "c1"; lit "c1"]].
+Proof. vm_compute. repeat split. Qed.
+
+(* the schema gate at work: the provider sends a 70-character call id; its answer is refused, nothing more is sent *)
+Definition ex_long_id : String.string := "call_xxxxxxxxxxxxxxxxxxxxxxxxxxxxxxxxxxxxxxxxxxxxxxxxxxxxxxxxxxxxxxxxx".
+Definition ex_long_id_script : list round :=
+  [ {| r_fail := false; r_events := [w_resp "r1"; w_done 0 "f1" ex_long_id "ls" "{}"] |};
+    {| r_fail := false; r_events := [w_resp "r2"] |} ].
+Definition ex_long_id_run : result :=
+  run ex_cfg (fun _ r => items_ok r) (fun _ _ => lit "o") (lit "p") None ex_long_id_script.
+Lemma ex_long_id_shape :
+  nlen (lit ex_long_id) = 70 /\ length (sent ex_long_id_run) = 1%nat /\ res_reason ex_long_id_run = InvalidRequest /\
+  match res_rejected ex_long_id_run with Some q => out_ids (items_of q) = [lit ex_long_id] | None => False end.
 Proof. vm_compute. repeat split. Qed.
